@@ -174,6 +174,43 @@ def writeE (lt cum : Bool) (bs : Nat) (es : List Extent) (size off : Nat) (b : B
     | .panic => .panic
     | .err r => .err ⟨r.ws, r.written, r.off, size2⟩
 
+/-- the zero fill goes in appends of at most 1 MiB -/
+def zeroChunk : Nat := 1048576
+
+/-- the zero fill in front of a write that starts beyond the end of the file (repaired File.Write): the gap
+    between the old end of file and the write offset is appended as zeros, at most `zeroChunk` bytes per call of
+    Write, so that blocks that held other bytes before read as the hole they are meant to be.  `fuel` bounds the
+    number of appends (each one advances the size by at least one byte). -/
+def zeroFill (lt cum : Bool) (bs : Nat) (es : List Extent) (target : Nat) :
+    (fuel : Nat) → (size : Nat) → (ws : List (Int × Bytes)) → WRes
+  | 0, size, ws => .ok ⟨ws, 0, size, size⟩
+  | fuel + 1, size, ws =>
+    if size ≥ target then .ok ⟨ws, 0, size, size⟩
+    else
+      match writeE lt cum bs es size size (zeros (min (target - size) zeroChunk)) with
+      | .ok r =>
+        if r.written = 0 then .err ⟨ws ++ r.ws, 0, r.off, r.size⟩
+        else zeroFill lt cum bs es target fuel r.size (ws ++ r.ws)
+      | .panic => .panic
+      | .needAlloc => .needAlloc
+      | .err r => .err ⟨ws ++ r.ws, 0, r.off, r.size⟩
+
+/-- File.Write(b).  `zf = false`: as found, nothing is written between the old end of file and `off` (finding
+    ext4-hole-stale-bytes); `zf = true`: repaired, the gap is zero-filled first. -/
+def writeZ (zf lt cum : Bool) (bs : Nat) (es : List Extent) (size off : Nat) (b : Bytes) : WRes :=
+  if zf && decide (off > size) then
+    match zeroFill lt cum bs es off (off - size) size [] with
+    | .ok r0 =>
+      match writeE lt cum bs es r0.size off b with
+      | .ok r => .ok ⟨r0.ws ++ r.ws, r.written, r.off, r.size⟩
+      | .panic => .panic
+      | .needAlloc => .needAlloc
+      | .err r => .err ⟨r0.ws ++ r.ws, r.written, r.off, r.size⟩
+    | .panic => .panic
+    | .needAlloc => .needAlloc
+    | .err r => .err r
+  else writeE lt cum bs es size off b
+
 /-- the write list as device writes (offsets are non-negative for every WriteAt that was carried out) -/
 def toWrs (ws : List (Int × Bytes)) : List Wr := ws.map fun p => ⟨p.1.toNat, p.2⟩
 
@@ -197,6 +234,23 @@ def Contig : Nat → List Extent → Prop
 /-- `ExtentsCover es size`: contiguous from block 0 and at least `size` bytes long -/
 def ExtentsCover (bs : Nat) (es : List Extent) (size : Nat) : Prop :=
   Contig 0 es ∧ size ≤ blockCount es * bs
+
+/-! ### sparse files: extent lists with holes (what File.Read accepts; images made by other tools have them) -/
+
+/-- file blocks in increasing order from `first` on, holes allowed, no empty extent -/
+def Sorted : Nat → List Extent → Prop
+  | _, [] => True
+  | first, e :: es => first ≤ e.fileBlock ∧ 0 < e.count ∧ Sorted (e.fileBlock + e.count) es
+
+/-- the bytes the list denotes from file block `first` on: zeros for a hole, the extent's blocks otherwise -/
+def fileBytesS (dev : Dev) (bs : Nat) : Nat → List Extent → Bytes
+  | _, [] => []
+  | first, e :: es =>
+    zeros ((e.fileBlock - first) * bs) ++ readAt dev (e.start * bs) (e.count * bs) ++
+      fileBytesS dev bs (e.fileBlock + e.count) es
+
+/-- the window `[a, a+m)` of `F`, zero where `F` has no byte (behind the last extent) -/
+def win (F : Bytes) (a m : Nat) : Bytes := (List.range m).map fun j => F.getD (a + j) 0
 
 /-- `d` written over `F` at position `p` (the reference meaning of a write at an offset) -/
 def splice (F : Bytes) (p : Nat) (d : Bytes) : Bytes := F.take p ++ d ++ F.drop (p + d.length)
